@@ -27,6 +27,12 @@ const (
 	CutBefore = 1 // close the connection instead of answering
 	CutMid    = 2 // write the first half of the answer frame, then close
 	CutAfter  = 3 // write the whole answer frame, then close
+	CutAt     = 4 // write the first CutK bytes of the answer frame, then close (C17: a response cut at any byte)
+	CutSilent = 5 // write the first CutK bytes, then go silent with the connection left open
+
+	// CutK sentinels
+	CutKLast = -1 // all but the last byte
+	CutKMid  = -2 // in the middle of the body (after the 8 header bytes)
 )
 
 // Action is the scripted treatment of one request, looked up by the request's tag.
@@ -37,7 +43,8 @@ type Action struct {
 	ErrCode int16         // answer with this Kafka error code
 	Dup     bool          // write the answer frame twice
 	Late    int           // answer LATE: only once Late later requests have arrived on the same conn (or the conn died, or LateMax passed)
-	Cut     int           // CutNone / CutBefore / CutMid / CutAfter
+	Cut     int           // CutNone / CutBefore / CutMid / CutAfter / CutAt / CutSilent
+	CutK    int           // for CutAt / CutSilent: number of bytes written (or CutKLast / CutKMid)
 }
 
 // Req is a journal entry for a request decoded by the broker.
@@ -129,6 +136,7 @@ type Broker struct {
 	anss   []Ans
 	seq    int
 	script map[string]Action
+	cuts   map[string][2]int // tag -> (bytes written, frame length) of CutAt / CutSilent answers
 	topics []string
 
 	gateCh   chan struct{}
@@ -198,6 +206,14 @@ func (b *Broker) Journal(nreq, nans int) ([]Req, []Ans) {
 }
 
 // NumConns is the number of connections dialed so far.
+// CutOf reports how many bytes of the answer to tag were written and the frame's length.
+func (b *Broker) CutOf(tag string) (k, n int, ok bool) {
+	b.mu.Lock()
+	defer b.mu.Unlock()
+	v, ok := b.cuts[tag]
+	return v[0], v[1], ok
+}
+
 func (b *Broker) NumConns() int {
 	b.mu.Lock()
 	defer b.mu.Unlock()
@@ -378,6 +394,32 @@ func (b *Broker) answer(c *bconn, ver int16, corr int32, msg protocol.Message, t
 	if act.Cut == CutMid {
 		c.server.Write(frame[:len(frame)/2])
 		c.server.Close()
+		return
+	}
+	if act.Cut == CutAt || act.Cut == CutSilent {
+		k := act.CutK
+		switch {
+		case k == CutKLast:
+			k = len(frame) - 1
+		case k == CutKMid:
+			k = 8 + (len(frame)-8)/2
+		}
+		if k > len(frame)-1 {
+			k = len(frame) - 1
+		}
+		if k < 0 {
+			k = 0
+		}
+		c.server.Write(frame[:k])
+		b.mu.Lock()
+		if b.cuts == nil {
+			b.cuts = map[string][2]int{}
+		}
+		b.cuts[tag] = [2]int{k, len(frame)}
+		b.mu.Unlock()
+		if act.Cut == CutAt {
+			c.server.Close()
+		}
 		return
 	}
 	copies := 1
